@@ -8,7 +8,7 @@
    Styles 3) and Css/CounterScopesSpec.v (CSS 2.1 12.4.1 / CSS Lists 3 section
    4).  Check/C19.v ties the models to /repo on every run. *)
 From Verif Require Import Base.GoSem Css.Counters Css.CounterScopes Css.CounterSpec Css.CounterScopesSpec
-  Css.CounterAbs Css.CounterProofs Css.CounterTableProofs Css.CounterExtendsProofs Css.CounterTheorems
+  Css.CounterAbs Css.CounterProofs Css.CounterTableProofs Css.CounterExtendsProofs Css.CounterSpecFacts Css.CounterTheorems
   Css.CounterScopesProofs.
 From Coq Require Import List ZArith NArith Bool.
 Import ListNotations.
@@ -89,6 +89,13 @@ Theorem C19_render_value_spec : forall c n v,
 Proof. exact render_value_spec. Qed.
 Print Assumptions C19_render_value_spec.
 
+(* ... and the specification determines that string: whatever satisfies
+   counter_repr is what RenderValue returns *)
+Theorem C19_render_value_unique : forall c n v s,
+  wf_table c -> in_i64 v -> counter_repr (abs_table c) n v s -> RenderValue c v n = Ok s.
+Proof. exact render_value_unique. Qed.
+Print Assumptions C19_render_value_unique.
+
 (* extends: the record resolveCounter builds is the style section 3.1.7 defines
    (unknown targets and every participant of a cycle extend decimal) *)
 Theorem C19_extends_spec : forall c, wf_table c -> forall n d, lookup c n = Some d ->
@@ -96,6 +103,23 @@ Theorem C19_extends_spec : forall c, wf_table c -> forall n d, lookup c n = Some
              resolved (abs_table c) n (absr d') /\ wfr d' /\ (is_extends d = false -> d' = d).
 Proof. exact resolve_counter_spec. Qed.
 Print Assumptions C19_extends_spec.
+
+(* symbols() and <string> style references (css-counter-styles-3 section 6): the
+   anonymous style's own representation, else decimal *)
+Theorem C19_anonymous_style_spec : forall c sid d v,
+  wf_table c -> in_i64 v -> anon_descr sid = Some d -> wfr d ->
+  exists s, RenderValueStyle c v sid = Ok s /\
+            (style_repr (absr d) v (Some s) \/
+             (style_repr (absr d) v None /\ decimal_repr (abs_table c) v s)).
+Proof. exact render_value_style_anon. Qed.
+Print Assumptions C19_anonymous_style_spec.
+
+Theorem C19_anonymous_style_is_section6 :
+  (forall s d, anon_descr (SidString s) = Some d -> absr d = anon_string s) /\
+  (forall sysname args d, anon_descr (SidSymbols sysname args) = Some d ->
+                          absr d = anon_symbols (abs_system d) args).
+Proof. exact (conj anon_string_abs anon_symbols_abs). Qed.
+Print Assumptions C19_anonymous_style_is_section6.
 
 Theorem C19_marker_spec : forall c n v,
   wf_table c -> in_i64 v ->
@@ -191,3 +215,26 @@ Example C19_ex_roman : RenderValue ex_table 1994 s_roman = Ok [109;99;109;120;99
                     /\ RenderValue ex_table 4000 s_roman = Ok [52;48;48;48]%N                (* fallback: 4000 *)
                     /\ RenderValue ex_table (-7) s_roman = Ok [45;55]%N.                     (* -7 *)
 Proof. vm_compute. auto. Qed.
+
+(* nesting, on the specification side and on the model side:
+   <div r i>[ <div r i>[ <div i> ] <div i> <div r> <div r i> ] <div i>
+   with r = counter-reset: c, i = counter-increment: c and
+   ::before { content: counters(c, ".") } gives 1, 1.1, 1.2, 1.3, 1.0, 1.1, 2 *)
+Definition ex_c : str := [99]%N.
+Definition ex_before : option pseudo :=
+  Some (Pseudo (CP [] [] true [] false) [CCounters ex_c [46]%N (SidName s_decimal)]).
+Definition ex_div (reset incr : bool) (children : list elem) : elem :=
+  Elem false (CP (if reset then [CI ex_c 0] else []) [] false (if incr then [CI ex_c 1] else []) false)
+       MkNone ex_before None children.
+Definition ex_doc : elem :=
+  Elem false (CP [] [] true [] false) MkNone None None
+    [ex_div true true [ex_div true true [ex_div false true []];
+                       ex_div false true []; ex_div true false []; ex_div true true []];
+     ex_div false true []].
+
+Example C19_ex_nesting :
+  s_build ex_table ex_doc =
+    Ok [OBefore [49]; OBefore [49;46;49]; OBefore [49;46;50]; OBefore [49;46;51];
+        OBefore [49;46;48]; OBefore [49;46;49]; OBefore [50]]%N
+  /\ build ex_table ex_doc = s_build ex_table ex_doc.
+Proof. split; [vm_compute; reflexivity|exact (build_spec ex_table ex_doc)]. Qed.
